@@ -215,6 +215,16 @@ impl ProgressBar {
         *ticker_state = interval.map(|interval| Ticker::new(interval, &self.state));
     }
 
+    /// Tells the steady tick thread (if any) to stop waiting for its next tick
+    ///
+    /// The thread exits once it sees that the bar is finished, but it only looks when it wakes
+    /// up, which could otherwise take a whole tick interval.
+    fn wake_ticker(&self) {
+        if let Some(ticker) = self.ticker.lock().unwrap().as_ref() {
+            ticker.stop();
+        }
+    }
+
     /// Manually ticks the spinner or progress bar
     ///
     /// This automatically happens on any other change to a progress bar.
@@ -361,6 +371,7 @@ impl ProgressBar {
     pub fn finish(&self) {
         self.state()
             .finish_using_style(Instant::now(), ProgressFinish::AndLeave);
+        self.wake_ticker();
     }
 
     /// Finishes the progress bar and sets a message
@@ -370,18 +381,21 @@ impl ProgressBar {
     pub fn finish_with_message(&self, msg: impl Into<Cow<'static, str>>) {
         self.state()
             .finish_using_style(Instant::now(), ProgressFinish::WithMessage(msg.into()));
+        self.wake_ticker();
     }
 
     /// Finishes the progress bar and completely clears it
     pub fn finish_and_clear(&self) {
         self.state()
             .finish_using_style(Instant::now(), ProgressFinish::AndClear);
+        self.wake_ticker();
     }
 
     /// Finishes the progress bar and leaves the current message and progress
     pub fn abandon(&self) {
         self.state()
             .finish_using_style(Instant::now(), ProgressFinish::Abandon);
+        self.wake_ticker();
     }
 
     /// Finishes the progress bar and sets a message, and leaves the current progress
@@ -393,6 +407,7 @@ impl ProgressBar {
             Instant::now(),
             ProgressFinish::AbandonWithMessage(msg.into()),
         );
+        self.wake_ticker();
     }
 
     /// Finishes the progress bar using the behavior stored in the [`ProgressStyle`]
@@ -402,6 +417,8 @@ impl ProgressBar {
         let mut state = self.state();
         let finish = state.on_finish.clone();
         state.finish_using_style(Instant::now(), finish);
+        drop(state);
+        self.wake_ticker();
     }
 
     /// Sets a different draw target for the progress bar
